@@ -4,6 +4,8 @@
 //!        bverif replay <file>
 
 mod bookprops;
+mod c07;
+mod marketx;
 mod envprops;
 mod monitors;
 mod ops;
@@ -32,6 +34,7 @@ fn main() {
             out.finish()
         }
         "C06" => bookprops::c06(tier),
+        "C07" => c07::c07(tier),
         "C12" => bookprops::c12(tier),
         "C13" => bookprops::c13(tier),
         other => {
